@@ -45,7 +45,8 @@ def evaluate(name, run_all=False, tier="quick", vseed=None):
     env = dict(os.environ, PYTHONPATH=s, VERIF_REPO=s + "/", PYTHONHASHSEED="0")
     if vseed is not None:
         env["VERIF_SEED"] = str(vseed)
-    rc, out = sh("cd %s && /venv/bin/python -m pytest -q -p no:cacheprovider --timeout=900 --continue-on-collection-errors gffutils 2>&1 | tail -1" % s, env)
+    os.makedirs(os.path.join(s, "pytmp"), exist_ok=True)  # the suite leaves temp files behind: keep them in the scratch copy
+    rc, out = sh("cd %s && /venv/bin/python -m pytest -q -p no:cacheprovider --timeout=900 --continue-on-collection-errors gffutils 2>&1 | tail -1" % s, dict(env, TMPDIR=os.path.join(s, "pytmp")))
     res["tests"] = out.strip().splitlines()[-1] if out.strip() else "?"
     res["tests_unchanged"] = " 74 passed" in " " + res["tests"] and "2 failed" in res["tests"]
     demo = os.path.join(d, "demo.py")
